@@ -525,8 +525,13 @@ impl<const BITS: usize, const LIMBS: usize> TryFrom<f64> for Uint<BITS, LIMBS> {
         // All non-normal cases should have been handled above
         assert!(value.is_normal());
 
-        // Add offset to round to nearest integer.
-        let value = value + 0.5;
+        // Add offset to round to nearest integer. Values of 2^52 and above are
+        // integers already, and adding 0.5 to them is inexact below 2^53.
+        let value = if value < 4_503_599_627_370_496.0 {
+            value + 0.5
+        } else {
+            value
+        };
 
         // Parse IEEE-754 double
         // Sign should be zero, exponent should be >= 0.
